@@ -212,7 +212,7 @@ CHECKS = {
          'DESIGN.md §3 C19', 'E3'),
  'C17': ('exploration',
          'exhaustive enumeration of motion programs up to a length bound with deviation-bounded exploration of setpoint-thread schedules in virtual time',
-         'The real MotionCommander (with its setpoint thread) and PositionHlCommander run on a recording Crazyflie stub under '
+         'Also: two complete flights (take_off, program, land, take_off, program, land) on one helper object for programs of length <= 1 (thorough 2), each flight judged on its own, the second from where the first ended; velocity commands without any streamed setpoint are a violation. The real MotionCommander (with its setpoint thread) and PositionHlCommander run on a recording Crazyflie stub under '
          'the controlled scheduler with virtual time. Every program of up to 2 (thorough 3) primitives from an alphabet of 26 '
          'MotionCommander and 15 PositionHlCommander primitives (all directions, distances, velocities, turns, circles, '
          'start_*/stop, go_to, default and landing-height changes), in context-manager and explicit form, with an exception '
